@@ -1,8 +1,11 @@
 (* C02 -- every item sent on a channel is delivered to that channel's consumers exactly once and in order.
    Statements only; proofs are in proofs/ChanP.v. *)
-From Coq Require Import List Bool Arith.
+From Coq Require Import ZArith List Bool Arith.
 Import ListNotations.
 Require Import EV.model.Cfg EV.model.Chan EV.proofs.ChanP EV.gen.Facts.
+Require EV.model.Frame EV.model.Value.
+Require Import EV.model.Unser EV.model.E2E EV.proofs.E2EP.
+Close Scope Z_scope. Open Scope nat_scope.
 
 (* the configuration of the channel model as read off the source by tools/gen_facts.py; the shape facts say that
    the functions the model's atomic steps stand for still have the modelled structure *)
@@ -25,6 +28,16 @@ Theorem C02_no_loss_no_dup_no_reorder : forall n ls id, lossless (crun chan_cfg 
   exists rest, sent (crun chan_cfg ls (cinit n)) id = got (crun chan_cfg ls (cinit n)) id ++ rest.
 Proof. exact (obtained_is_prefix_of_sent chan_cfg C02_C). Qed.
 Print Assumptions C02_no_loss_no_dup_no_reorder.
+
+(* ... and what travels is the VALUE: for every sequence of Channel.send calls (any channel ids in the 32-bit range, any
+   well-formed values incl. channels inside, payloads below 2 GiB) the bytes put on the wire, read with ANY chunking, are
+   decoded by the receiving gateway into exactly those (channel id, value) pairs in order -- the serializer (C01) composed
+   with the frame codec (C08); the channel machine above then hands them to the consumers of the right channel *)
+Theorem C02_end_to_end : forall ma sc sends, py3str_as_py2str sc = false -> (2147483647 <= ma)%Z -> Forall sendable sends ->
+  exists bs, wire_of sends = Value.Ok bs /\
+    forall orc, received ma sc bs orc = map (fun p => (fst p, Value.Ok (snd p, []))) sends.
+Proof. exact end_to_end. Qed.
+Print Assumptions C02_end_to_end.
 
 (* non-vacuity: three items, two received, the third queued *)
 Example C02_witness : let s := crun chan_cfg [LNew 1; LPeerSend 1 7; LPeerSend 1 8; LPeerSend 1 9; LRecv; LRecv; LRecv; LGet 0 1; LGet 0 1] (cinit 1) in
